@@ -109,6 +109,28 @@ class MarkovCheck(object):
                     cc.update({'kind': 'e6', 'sim': sim, 'mode': mode, 'T': r.choice([0.4, 0.8, 1.5]) * (2 if mode == 'stateT2' else 1), 'runs': runs,
                                'full': (k % 2 == 0), 'seed': cs + (1 if sim == self.FAST else 0), 'ntests': n_cfg * 4})
                     cases.append(cc)
+        # --- step law on a few larger weighted networks: more than a thousand insertions into one candidate list within a single call
+        for j in range(4 if q else 24):
+            cs = case_seed(seed, self.PID + 'e2big', j)
+            r = random.Random(cs)
+            nb = r.randint(260, 380)
+            rr = random.Random(cs + 1)
+            es = set()
+            for a_ in range(nb):
+                es.add((min(a_, (a_ + 1) % nb), max(a_, (a_ + 1) % nb)))
+                for _ in range(r.choice([5, 7])):
+                    b_ = rr.randrange(nb)
+                    if a_ != b_:
+                        es.add((min(a_, b_), max(a_, b_)))
+            desc = {'n': nb, 'edges': sorted([list(e) for e in es]), 'kind': 'dense_ring', 'decoy': False}
+            desc['labels'] = r.choice(['int', 'offset', 'str'])
+            c = simcase.make_markov_case(r, desc, weight_mode='both', rates=r.choice([(2.0, 1.0), (1.5, 0.5)]), with_R0=False, tmins=(0,))
+            g = c['graph']
+            g['ew'] = {a: [r.choice([0.5, 1.0, 1.5, 2.0]) for _ in ws] for a, ws in g['ew'].items()}
+            g['nw'] = {a: [r.choice([0.5, 1.0, 2.0]) for _ in ws] for a, ws in g['nw'].items()}
+            c['I0'] = sorted(r.sample(range(desc['n']), 5))
+            c.update({'kind': 'e2', 'seed': cs, 'tmax': 'inf' if self.MODEL == 'SIR' else 4.0, 'big_e2': True})
+            cases.append(c)
         # --- endure: weighted selections that see K consecutive rejections
         for j in range(10 if q else 40):
             cs = case_seed(seed, self.PID + 'endure', j)
@@ -260,6 +282,9 @@ class MarkovCheck(object):
             return
         for k, v in counters.items():
             bump(res, k, v)
+        if case.get('big_e2'):
+            bump(res, 'e2_runs_on_networks_of_hundreds_of_nodes')
+            setmax(res, 'e2_max_steps_in_one_call', nsteps or 0)
         if px.n_opaque:
             bump(res, 'opaque_probe_uses', px.n_opaque)
         for pred, det in fails:
